@@ -126,6 +126,14 @@ func runPacer(t *simrt.Tape, keep bool) simrt.Outcome {
 			if num == 100 {
 				sp.Amp.Freq = sp.Mean.Freq - 1
 			}
+			if t.Prob(1, 12) {
+				// "amplitude up to just below the mean", the closest there is: the mean's frequency over a unit one
+				// nanosecond longer (the rate at the trough is a hit in centuries: no finite wait brackets the next hit)
+				if t.Prob(1, 2) {
+					sp.Mean = vegeta.Rate{Freq: 1 + t.Choose(5), Per: []time.Duration{time.Minute, time.Hour, 24 * time.Hour}[t.Choose(3)]}
+				}
+				sp.Amp = vegeta.Rate{Freq: sp.Mean.Freq, Per: sp.Mean.Per + 1}
+			}
 			if t.Prob(1, 5) {
 				sp.Amp.Freq = -sp.Amp.Freq // the same wave half a period later
 			}
